@@ -145,34 +145,6 @@ theorem fast_udf_schedule_result (crop : CropFn ℚ) (hcrop : C09.Defining crop)
 theorem udf_peaks (p zs : ℤ) : udfPeak (p : ℚ) (zs : ℚ) = p + zs := by
   unfold udfPeak; rw [C05.round_int, C05.round_int]
 
-theorem udf_wiring :
-    Gen.corr_init = "super().__init__(*args, peaks=np.round(peaks).astype(int), zero_shift=zero_shift, **kwargs)"
-    ∧ Gen.get_zero_shift_body = "if self.params.zero_shift is None: result = np.array((0, 0)) elif index is None: result = self.params.zero_shift else: result = self.params.zero_shift if np.ndim(result) > 1: result = result[index] ; return result"
-    ∧ Gen.udf_fast_call = "ltbc.process_frame_fast"
-    ∧ Gen.udf_fast_arg_peaks = "self.get_peaks() + np.round(self.get_zero_shift()).astype(int)"
-    ∧ Gen.udf_fast_arg_crop_bufs = "self.task_data.crop_bufs"
-    ∧ Gen.udf_fast_arg_crop_function = "self.task_data.crop_function"
-    ∧ Gen.udf_fast_arg_upsample = "self.params.get('upsample', False)"
-    ∧ Gen.udf_fast_arg_crop_size = "match_pattern.get_crop_size()"
-    ∧ Gen.udf_fast_arg_frame = "frame"
-    ∧ Gen.udf_full_call = "ltbc.process_frame_full"
-    ∧ Gen.udf_full_arg_peaks = "self.get_peaks() + np.round(self.get_zero_shift()).astype(int)"
-    ∧ Gen.udf_full_arg_frame_buf = "self.task_data.frame_buf"
-    ∧ Gen.udf_full_arg_buf_count = "self.task_data.buf_count"
-    ∧ Gen.udf_full_arg_crop_function = "self.task_data.crop_function"
-    ∧ Gen.udf_full_arg_upsample = "self.params.get('upsample', False)"
-    ∧ Gen.udf_full_arg_crop_size = "match_pattern.get_crop_size()"
-    ∧ Gen.udf_output_buffers = "r = self.results ; return (r.centers, r.refineds, r.peak_values, r.peak_elevations)" := by
-  refine ⟨rfl, rfl, rfl, rfl, rfl, rfl, rfl, rfl, rfl, rfl, rfl, rfl, rfl, rfl, rfl, rfl, rfl⟩
-
-
-theorem task_data_wiring :
-    Gen.udf_fast_task_data = "n_peaks = len(self.get_peaks()) ; mask = self.get_pattern() ; crop_size = mask.get_crop_size() ; template = self.xp.array(mask.get_template(sig_shape=(2 * crop_size, 2 * crop_size))) ; dtype = np.result_type(self.meta.input_dtype, np.float32) ; crop_bufs = ltbc.allocate_crop_bufs(crop_size, n_peaks, dtype=dtype, limit=self.limit, xp=self.xp) ; if self.meta.array_backend in (self.BACKEND_SPARSE_COO, self.BACKEND_SPARSE_GCXS, self.BACKEND_CUPY): crop_function = ltbc.crop_disks_from_frame_slicing elif self.meta.array_backend in (self.BACKEND_NUMPY,): crop_function = ltbc.crop_disks_from_frame else: raise RuntimeError(f'Unsupported array backend {self.meta.array_backend}') ; kwargs = {'crop_bufs': crop_bufs, 'template': template, 'crop_function': crop_function} ; return kwargs"
-    ∧ Gen.udf_full_task_data = "mask = self.get_pattern() ; n_peaks = len(self.params.peaks) ; template = self.xp.array(mask.get_template(sig_shape=self.meta.dataset_shape.sig)) ; dtype = np.result_type(self.meta.input_dtype, np.float32) ; frame_buf = self.xp.array(ltbc.zeros(shape=self.meta.dataset_shape.sig, dtype=dtype)) ; crop_size = mask.get_crop_size() ; if self.meta.array_backend in (self.BACKEND_SPARSE_COO, self.BACKEND_SPARSE_GCXS, self.BACKEND_CUPY): crop_function = ltbc.crop_disks_from_frame_slicing elif self.meta.array_backend in (self.BACKEND_NUMPY,): crop_function = ltbc.crop_disks_from_frame else: raise RuntimeError(f'Unsupported array backend {self.meta.array_backend}') ; kwargs = {'template': template, 'frame_buf': frame_buf, 'buf_count': ltbc.get_buf_count(crop_size, n_peaks, dtype, self.limit), 'crop_function': crop_function} ; return kwargs"
-    ∧ Gen.udf_result_buffers = "num_disks = len(self.params.peaks) ; return {'centers': self.buffer(kind='nav', extra_shape=(num_disks, 2), dtype=np.int32), 'refineds': self.buffer(kind='nav', extra_shape=(num_disks, 2), dtype='float32'), 'peak_values': self.buffer(kind='nav', extra_shape=(num_disks,), dtype='float32'), 'peak_elevations': self.buffer(kind='nav', extra_shape=(num_disks,), dtype='float32')}" := by
-  refine ⟨rfl, rfl, rfl⟩
-
-
 /-- buffer count from the byte limit never matters (C08) and neither does the crop back-end (C13) -/
 theorem limit_and_backend_irrelevant {α β : Type} [OfNat α 0] (f : ℤ → β) (peaks : ℤ → ℤ) (n b b' : ℤ)
     (hn : 0 ≤ n) (hb : 0 < b) (hb' : 0 < b') (out : ℤ → β)
@@ -218,14 +190,5 @@ theorem sparse_offset_center (peak d c : ℤ) (hc : 0 ≤ c) :
     Gen.sparse_offset peak d c + Gen.mask_center (Gen.sparse_size c) = peak + d := by
   unfold Gen.sparse_offset Gen.sparse_size
   rw [C16.mask_center_floor]; omega
-
-theorem sparse_wiring :
-    Gen.sparse_init = "super().__init__(*args, peaks=peaks, match_pattern=match_pattern, steps=steps, **kwargs) ; if self.params.zero_shift is not None: raise ValueError('Parameter zero_shift not supported for SparseCorrelationUDF')"
-    ∧ Gen.sparse_process_tile = "tile_slice = self.meta.slice ; c = self.task_data.mask_container ; tile_t = ltbc.log_scale(tile.reshape((tile.shape[0], -1)).T, out=None) ; sl = c.get(key=tile_slice, transpose=False) ; self.results.corr[:] += self.forbuf(sl.dot(tile_t).T, self.results.corr)"
-    ∧ Gen.sparse_postprocess = "steps = 2 * self.params.steps + 1 ; corrmaps = self.results.corr.reshape((-1, len(self.params.peaks), steps, steps)) ; peaks = self.params.peaks ; centers, refineds, peak_values, peak_elevations = self.output_buffers() ; for f in range(corrmaps.shape[0]): ltbc.evaluate_correlations(corrs=corrmaps[f], peaks=peaks, crop_size=self.params.steps, out_centers=centers[f], out_refineds=refineds[f], out_heights=peak_values[f], out_elevations=peak_elevations[f])"
-    ∧ Gen.sparse_result_buffers = "super_buffers = super().get_result_buffers() ; num_disks = len(self.params.peaks) ; steps = self.params.steps * 2 + 1 ; my_buffers = {'corr': self.buffer(kind='nav', extra_shape=(num_disks * steps ** 2,), dtype='float32')} ; super_buffers.update(my_buffers) ; return super_buffers"
-    ∧ Gen.sparse_task_data = "match_pattern = self.params.match_pattern ; crop_size = match_pattern.get_crop_size() ; size = (2 * crop_size + 1, 2 * crop_size + 1) ; template = match_pattern.get_mask(sig_shape=size) ; steps = self.params.steps ; peak_offsetY, peak_offsetX = np.mgrid[-steps:steps + 1, -steps:steps + 1] ; offsetY = self.params.peaks[:, 0, np.newaxis, np.newaxis] + peak_offsetY - crop_size ; offsetX = self.params.peaks[:, 1, np.newaxis, np.newaxis] + peak_offsetX - crop_size ; offsetY = offsetY.flatten() ; offsetX = offsetX.flatten() ; stack = functools.partial(masks.sparse_template_multi_stack, mask_index=range(len(offsetY)), offsetX=offsetX, offsetY=offsetY, template=template, imageSizeX=self.meta.dataset_shape.sig[1], imageSizeY=self.meta.dataset_shape.sig[0]) ; if self.meta.array_backend in sparseconverter.CPU_BACKENDS: backend = 'numpy' elif self.meta.array_backend in sparseconverter.CUDA_BACKENDS: backend = 'cupy' else: raise ValueError('Unknown device class') ; if self.meta.array_backend == self.BACKEND_SPARSE_COO: use_sparse = 'sparse.pydata' elif self.meta.array_backend == self.BACKEND_SPARSE_GCXS: use_sparse = 'sparse.pydata.GCXS' elif self.meta.array_backend in (self.BACKEND_CUPY, self.BACKEND_NUMPY): use_sparse = 'scipy.sparse.csc' else: raise RuntimeError(f'Unsupported array backend {self.meta.array_backend}') ; container = MaskContainer(mask_factories=stack, dtype=np.float32, use_sparse=use_sparse, backend=backend) ; kwargs = {'mask_container': container, 'crop_size': crop_size} ; return kwargs" := by
-  refine ⟨rfl, rfl, rfl, rfl, rfl⟩
-
 
 end C10
